@@ -545,6 +545,7 @@ package keeper
 //@ ensures [frame] S == old(S) && E == old(E) && X == old(X)
 //@ ensures [candidates] $FilterValidators.called && $FilterValidators.consumerId == consumerId && len($FilterValidators.bondedValidators) <= len(bondedValidators)
 //@ ensures [active-only] !powerShapingParameters.AllowInactiveVals && 0 <= M && M < len(bondedValidators) ==> len($FilterValidators.bondedValidators) == M
+//@ ensures [active-only-provider-order] !powerShapingParameters.AllowInactiveVals && 0 <= M && M < len(bondedValidators) ==> (forall j int :: 0 <= j && j < M ==> (exists i int :: 0 <= i && i < M && $FilterValidators.bondedValidators[j] == old(bondedValidators[i])))
 //@ ensures [inactive-allowed] powerShapingParameters.AllowInactiveVals ==> len($FilterValidators.bondedValidators) == len(bondedValidators)
 //@ ensures [filter-error] $FilterValidators.ret1 != nil ==> result1 != nil
 //@ ensures [partition-input] result1 == nil ==> $PartitionBasedOnPriorityList.called && $PartitionBasedOnPriorityList.consumerId == consumerId && $PartitionBasedOnPriorityList.nextValidators == $FilterValidators.ret0
